@@ -40,6 +40,7 @@ const (
 	OpExtract
 	OpZext
 	OpSext
+	OpVS // value set: a small-domain scalar as (value_i when cond_i), conditions exclusive and exhaustive
 )
 
 var opNames = [...]string{
@@ -61,9 +62,12 @@ type Term struct {
 	Hi, Lo int
 	id     int // 0 for constants; otherwise unique within the Ctx
 	VarIdx int // index into Ctx.Vars for OpVar
-	// CT: the term is a constant or an ite-DAG whose leaves are all constants (a
-	// small-domain scalar such as a state-machine state or a counter).
-	CT bool
+	// CT: the term is a value set (OpVS): a small-domain scalar such as a state-machine
+	// state or a counter, kept as value -> condition pairs so that operations with
+	// constants stay in that form and comparisons become pure Boolean structure.
+	CT    bool
+	Vals  []uint64
+	Conds []*Term
 }
 
 func (t *Term) IsConst() bool { return t.Op == OpConst }
@@ -131,6 +135,7 @@ type Ctx struct {
 	byName map[string]*Term
 	supp   map[*Term]int
 	tables map[*Term]Set256
+	vsTab  map[string]*Term
 	varsets map[*Term][]uint64
 }
 
@@ -175,9 +180,7 @@ func (c *Ctx) mk(op Op, w int, hi, lo int, args ...*Term) *Term {
 	t := &Term{Op: op, W: w, Hi: hi, Lo: lo, N: len(args), id: c.nextID}
 	c.nextID++
 	t.A[0], t.A[1], t.A[2] = k.a, k.b, k.c
-	if op == OpIte && w != 0 {
-		t.CT = isCT(k.b) && isCT(k.c)
-	}
+
 	c.tab[k] = t
 	return t
 }
@@ -197,27 +200,127 @@ func (c *Ctx) Var(name string, w int) *Term {
 	return t
 }
 
-func isCT(t *Term) bool { return t.Op == OpConst || t.CT }
+func isCT(t *Term) bool { return t.Op == OpConst || t.Op == OpVS }
 
-// mapCT rebuilds the ite-DAG t applying f to its constant leaves; sharing is preserved.
+const maxVS = 96
+
+// mkVS builds a value-set term from (value, condition) pairs whose conditions are
+// mutually exclusive and exhaustive. Equal values are merged, impossible ones dropped.
+func (c *Ctx) mkVS(w int, vals []uint64, conds []*Term) *Term {
+	type ent struct {
+		v uint64
+		c *Term
+	}
+	var es []ent
+	for i, v := range vals {
+		v &= mask(w)
+		cd := conds[i]
+		if cd == False {
+			continue
+		}
+		found := false
+		for k := range es {
+			if es[k].v == v {
+				es[k].c = c.Or(es[k].c, cd)
+				found = true
+				break
+			}
+		}
+		if !found {
+			es = append(es, ent{v, cd})
+		}
+	}
+	if len(es) == 0 {
+		return Const(w, 0) // unreachable under its path condition
+	}
+	if len(es) == 1 {
+		return Const(w, es[0].v)
+	}
+	for _, e := range es {
+		if e.c == True {
+			return Const(w, e.v)
+		}
+	}
+	// insertion sort by value: canonical order
+	for i := 1; i < len(es); i++ {
+		for k := i; k > 0 && es[k-1].v > es[k].v; k-- {
+			es[k-1], es[k] = es[k], es[k-1]
+		}
+	}
+	if len(es) > maxVS {
+		// too many values: fall back to a plain ite chain
+		r := Const(w, es[len(es)-1].v)
+		for i := len(es) - 2; i >= 0; i-- {
+			r = c.mk(OpIte, w, 0, 0, es[i].c, Const(w, es[i].v), r)
+		}
+		return r
+	}
+	var kb []byte
+	kb = append(kb, byte(w))
+	for _, e := range es {
+		kb = append(kb, byte(e.v), byte(e.v>>8), byte(e.v>>16), byte(e.v>>24), byte(e.v>>32), byte(e.v>>40), byte(e.v>>48), byte(e.v>>56))
+		id := e.c.id
+		kb = append(kb, byte(id), byte(id>>8), byte(id>>16), byte(id>>24))
+	}
+	if c.vsTab == nil {
+		c.vsTab = map[string]*Term{}
+	}
+	if t, ok := c.vsTab[string(kb)]; ok {
+		return t
+	}
+	t := &Term{Op: OpVS, W: w, id: c.nextID, CT: true}
+	c.nextID++
+	for _, e := range es {
+		t.Vals = append(t.Vals, e.v)
+		t.Conds = append(t.Conds, e.c)
+	}
+	c.vsTab[string(kb)] = t
+	return t
+}
+
+// mapCT applies f to every value of the value set t and recombines the results.
 func (c *Ctx) mapCT(t *Term, f func(leaf *Term) *Term) *Term {
 	if t.Op == OpConst {
 		return f(t)
 	}
-	memo := map[*Term]*Term{}
-	var rec func(t *Term) *Term
-	rec = func(t *Term) *Term {
-		if t.Op == OpConst {
-			return f(t)
+	rs := make([]*Term, len(t.Vals))
+	allCT := true
+	for i, v := range t.Vals {
+		rs[i] = f(Const(t.W, v))
+		if !isCT(rs[i]) {
+			allCT = false
 		}
-		if r, ok := memo[t]; ok {
-			return r
-		}
-		r := c.Ite(t.A[0], rec(t.A[1]), rec(t.A[2]))
-		memo[t] = r
-		return r
 	}
-	return rec(t)
+	rw := rs[0].W
+	if rw == 0 {
+		// Boolean result: OR of (cond_i and r_i)
+		res := False
+		for i, r := range rs {
+			res = c.Or(res, c.And(t.Conds[i], r))
+		}
+		return res
+	}
+	if allCT {
+		var vals []uint64
+		var conds []*Term
+		for i, r := range rs {
+			if r.Op == OpConst {
+				vals = append(vals, r.Val)
+				conds = append(conds, t.Conds[i])
+				continue
+			}
+			for k, v := range r.Vals {
+				vals = append(vals, v)
+				conds = append(conds, c.And(t.Conds[i], r.Conds[k]))
+			}
+		}
+		return c.mkVS(rw, vals, conds)
+	}
+	res := rs[len(rs)-1]
+	for i := len(rs) - 2; i >= 0; i-- {
+		res = c.Ite(t.Conds[i], rs[i], res)
+	}
+	return res
 }
 
 func same(a, b *Term) bool {
@@ -388,6 +491,24 @@ func (c *Ctx) Ite(cond, a, b *Term) *Term {
 	}
 	if cond.Op == OpNot {
 		return c.Ite(cond.A[0], b, a)
+	}
+	if a.W != 0 && isCT(a) && isCT(b) {
+		var vals []uint64
+		var conds []*Term
+		add := func(t *Term, g *Term) {
+			if t.Op == OpConst {
+				vals = append(vals, t.Val)
+				conds = append(conds, g)
+				return
+			}
+			for i, v := range t.Vals {
+				vals = append(vals, v)
+				conds = append(conds, c.And(g, t.Conds[i]))
+			}
+		}
+		add(a, cond)
+		add(b, c.Not(cond))
+		return c.mkVS(a.W, vals, conds)
 	}
 	// ite(c, ite(c, x, y), z) = ite(c, x, z)
 	if a.Op == OpIte && a.A[0] == cond {
@@ -897,6 +1018,14 @@ func Eval(t *Term, vals []uint64, memo map[*Term]uint64) uint64 {
 	}
 	var r uint64
 	switch t.Op {
+	case OpVS:
+		r = t.Vals[len(t.Vals)-1]
+		for i, cd := range t.Conds {
+			if Eval(cd, vals, memo) == 1 {
+				r = t.Vals[i]
+				break
+			}
+		}
 	case OpNot:
 		r = 1 - Eval(t.A[0], vals, memo)
 	case OpAnd:
@@ -986,8 +1115,12 @@ func (c *Ctx) Support(t *Term) int {
 		return v
 	}
 	r := -1
-	for i := 0; i < t.N; i++ {
-		s := c.Support(t.A[i])
+	kids := t.A[:t.N]
+	if t.Op == OpVS {
+		kids = t.Conds
+	}
+	for _, kid := range kids {
+		s := c.Support(kid)
 		if s == -1 {
 			continue
 		}
@@ -1057,8 +1190,12 @@ func (c *Ctx) VarSet(t *Term) []uint64 {
 		s = make([]uint64, t.VarIdx/64+1)
 		s[t.VarIdx/64] |= 1 << uint(t.VarIdx%64)
 	} else {
-		for i := 0; i < t.N; i++ {
-			a := c.VarSet(t.A[i])
+		kids := t.A[:t.N]
+		if t.Op == OpVS {
+			kids = t.Conds
+		}
+		for _, kid := range kids {
+			a := c.VarSet(kid)
 			if len(a) > len(s) {
 				s = append(s, make([]uint64, len(a)-len(s))...)
 			}
